@@ -780,7 +780,10 @@ def _str_is_empty(M, fr, n, a):
     if isinstance(s, SymStr): raise Unsupported('is_empty of opaque string')
     return len(s.b) == 0
 @reg(r'^std::string::String::push_str$')
-def _push_str(M, fr, n, a): as_str(M, a[0]).b.extend(as_str(M, a[1]).b); return UNIT
+def _push_str(M, fr, n, a):
+    d, s_ = as_str(M, a[0]), as_str(M, a[1])
+    if isinstance(d, SymStr) or isinstance(s_, SymStr): raise Unsupported('concatenation with an opaque (unmodelled format!) string')
+    d.b.extend(s_.b); return UNIT
 @reg(r'^std::string::String::push$')
 def _push_char(M, fr, n, a): as_str(M, a[0]).b.extend(encode_char(M, a[1])); return UNIT
 def encode_char(M, c):
@@ -979,11 +982,89 @@ def _char_class(M, fr, n, a):
 @reg(r'^<char as std::cmp::PartialEq>::eq$')
 def _char_eq(M, fr, n, a): return v_eq(D(M, a[0]), D(M, a[1]))
 
-# formatting: opaque (listed as stub)
-@reg(r'^std::fmt::format$|^alloc::fmt::format$|^std::fmt::Arguments::<\'_>::new|^std::fmt::Arguments::new|^core::fmt::rt::Argument::<\'_>::new_|^core::fmt::rt::Argument::new_|^core::fmt::rt::<impl std::fmt::Arguments<\'_>>::new|^std::fmt::Arguments::<\'_>::from_str|^core::fmt::rt::Placeholder::new$|^core::fmt::rt::UnsafeArg::new$|^std::fmt::Arguments::from_str$|^std::fmt::Arguments::new_const$|^std::fmt::Arguments::new_v1$')
-def _fmt(M, fr, n, a):
-    if n.endswith('format'): return SymStr(M.fresh_bv('fmt', 32))
-    return Opaque(('fmt', tuple(id(x) for x in a)))
+# formatting: Arguments carry the compiled template and the arguments; std::fmt::format renders integers, strings and chars
+# (fill/width/alignment as documented) and falls back to an opaque string for types with their own Display impl
+@reg(r'^core::fmt::rt::Argument::<\'_>::new_|^core::fmt::rt::Argument::new_')
+def _fmt_arg(M, fr, n, a):
+    m = re.search(r'::new_(\w+)::<(.*)>$', M.cur_callee)
+    return Agg('fmt::Argument', [m.group(2) if m else '?', a[0], m.group(1) if m else '?'])
+@reg(r'^std::fmt::Arguments::<\'_>::new|^std::fmt::Arguments::new|^core::fmt::rt::<impl std::fmt::Arguments<\'_>>::new|^std::fmt::Arguments::<\'_>::from_str|^std::fmt::Arguments::from_str$|^std::fmt::Arguments::new_const$|^std::fmt::Arguments::new_v1$|^core::fmt::rt::Placeholder::new$|^core::fmt::rt::UnsafeArg::new$')
+def _fmt_args(M, fr, n, a):
+    if 'from_str' in n: return Agg('fmt::Arguments', [('str', M.deref(a[0])), []])
+    t = M.deref(a[0]) if a else None
+    if isinstance(t, VecV) and len(a) > 1:
+        args = M.deref(a[1]); items = args.f if isinstance(args, Agg) else (args.items if isinstance(args, VecV) else [])
+        return Agg('fmt::Arguments', [('tmpl', [simp(x) for x in t.items]), list(items)])
+    return Agg('fmt::Arguments', [('opaque',), []])
+def render_int(M, v, ty, maxdigits=7):
+    """decimal digits of an integer value as a list of bytes (symbolic values fork on their magnitude class)"""
+    v = simp(v)
+    if not is_sym(v): return list(str(v).encode())
+    w = v.size(); sg = ty[0] == 'i'
+    neg = False
+    if sg and M.branch(v < 0): neg = True; v = -v
+    if w < 64: v = z3.ZeroExt(64 - w, v); w = 64       # the powers of ten below must not wrap in a narrow type
+    k = None
+    conds = [z3.ULT(v, 10 ** d) for d in range(1, maxdigits + 1)]
+    excl = []; prev = None
+    for c in conds:
+        excl.append(c if prev is None else z3.And(z3.Not(prev), c)); prev = c
+    excl.append(z3.Not(prev))
+    k = M.choose(excl)
+    if k == maxdigits: raise Unsupported('symbolic integer with more than %d digits in formatting (bound)' % maxdigits)
+    nd = k + 1
+    ds = [z3.Extract(7, 0, z3.URem(z3.UDiv(v, z3.BitVecVal(10 ** (nd - 1 - i), w)), z3.BitVecVal(10, w))) + 48 for i in range(nd)]
+    return ([45] if neg else []) + ds
+def render_arg(M, fr, arg):
+    ty, ref, kind = arg.f
+    v = M.deref(ref)
+    if kind != 'display': return None
+    t = ty.lstrip('&').strip()
+    if t in INT_W and t not in ('bool', 'char'): return render_int(M, v, t)
+    if t == 'char': return encode_char(M, v)
+    if isinstance(v, Str): return list(v.b)
+    return None
+@reg(r'^std::fmt::format$|^alloc::fmt::format$')
+def _fmt_format(M, fr, n, a):
+    A = a[0]
+    if not (isinstance(A, Agg) and A.name == 'fmt::Arguments'): return SymStr(M.fresh_bv('fmt', 32))
+    kind = A.f[0][0]
+    if kind == 'str': return Str(list(A.f[0][1].b))
+    if kind != 'tmpl': return SymStr(M.fresh_bv('fmt', 32))
+    t = A.f[0][1]; args = A.f[1]; out = []; i = 0; ai = 0
+    while i < len(t):
+        b = t[i]
+        if is_sym(b): return SymStr(M.fresh_bv('fmt', 32))
+        if b == 0: break
+        if b < 0x80:
+            out.extend(t[i + 1:i + 1 + b]); i += 1 + b; continue
+        if b & 0xC0 != 0xC0: return SymStr(M.fresh_bv('fmt', 32))
+        opts = b & 0x3F; i += 1; fill = 32; align = 0; width = None
+        if opts & 1:
+            flags = t[i] | (t[i + 1] << 8) | (t[i + 2] << 16) | (t[i + 3] << 24); i += 4
+            fill = flags & 0x1FFFFF; align = (flags >> 29) & 3
+            if flags & 0x07E00000: return SymStr(M.fresh_bv('fmt', 32))      # sign/alternate/zero-pad/debug-hex flags (bits 21..26): not modelled; bits 27/28 = width/precision present
+        if opts & 2: width = t[i] | (t[i + 1] << 8); i += 2
+        if opts & 4: return SymStr(M.fresh_bv('fmt', 32))
+        if opts & 8: ai = t[i] | (t[i + 1] << 8); i += 2
+        if ai >= len(args): return SymStr(M.fresh_bv('fmt', 32))
+        r = render_arg(M, fr, args[ai]); ai += 1
+        if r is None: return SymStr(M.fresh_bv('fmt', 32))
+        if width is not None and len(r) < width:
+            pad = list(chr(fill).encode()) * (width - len(r))
+            isnum = True
+            # default alignment: numbers right, everything else left; 0=left 1=right 2=center (as encoded by rustc)
+            if align == 1 or (align == 3 and isnum): r = pad + r
+            elif align == 0 and (opts & 1): r = r + pad
+            elif align == 2: r = pad[:len(pad) // 2] + r + pad[len(pad) // 2:]
+            else: r = pad + r
+        out.extend(r)
+    return Str(out)
+@reg(r'^<(u8|u16|u32|u64|usize|u128|i8|i16|i32|i64|i128|isize) as std::string::ToString>::to_string$|^<(u8|u16|u32|u64|usize|u128|i8|i16|i32|i64|i128|isize) as std::string::SpecToString>::spec_to_string$')
+def _int_to_string(M, fr, n, a):
+    ty = re.match(r'^<(\w+) as', n).group(1)
+    return Str(render_int(M, M.deref(a[0]), ty))
+
 @reg(r'^log::__private_api::|^log::max_level$|^<log::Level as std::cmp::PartialOrd<log::LevelFilter>>::le$|^log::logger$')
 def _log(M, fr, n, a):
     if n.endswith('::le'): return False          # assumption: logging disabled
@@ -1341,41 +1422,60 @@ def _hm_get_key_value(M, fr, n, a):
     while isinstance(M.get(r.cell, r.path), Ref): r = M.get(r.cell, r.path)
     return some(Agg('()', [Ref(r.cell, r.path + (('i', i), ('f', 0))), Ref(r.cell, r.path + (('i', i), ('f', 1)))]))
 
-# ------------------------------------------------------------------ time crate by contract: Duration = exact signed nanoseconds (i128 range checks as documented)
+# ------------------------------------------------------------------ time crate by contract: Duration = exact signed nanoseconds
+# (python int when concrete, 128-bit signed bit-vector when symbolic); constructors/ops panic exactly when the seconds leave i64
 I64_MIN, I64_MAX = -(1 << 63), (1 << 63) - 1
+NS = 10 ** 9
 def _dur(ns): return Agg('time::Duration', [ns])
-def _dur_from(M, v, unit_ns, what):
-    v = simp(v)
-    if is_sym(v): raise Unsupported('symbolic time::Duration (use the Int-mode kernel)')
-    secs = v * unit_ns // 10 ** 9 if v >= 0 else -((-v * unit_ns) // 10 ** 9)
-    if not (I64_MIN <= secs <= I64_MAX): raise Panic('overflow constructing `time::Duration`')
-    return _dur(v * unit_ns)
-@reg(r'^time::Duration::(seconds|milliseconds|microseconds|nanoseconds|minutes|hours|days|weeks)$')
+def _sx128(v, srcw=64): return z3.SignExt(128 - v.size(), v) if v.size() < 128 else v
+def _dur_check(M, ns, what):
+    if not is_sym(ns):
+        secs = (abs(ns) // NS) * (1 if ns >= 0 else -1)
+        if not (I64_MIN <= secs <= I64_MAX): raise Panic(what)
+        return
+    secs = ns / z3.BitVecVal(NS, 128)           # signed division truncates toward zero, like time's seconds
+    bad = z3.Or(secs < z3.BitVecVal(I64_MIN, 128), secs > z3.BitVecVal(I64_MAX, 128))
+    if M.branch(bad): raise Panic(what)
+@reg(r'^time::Duration::(seconds|milliseconds|microseconds|nanoseconds|minutes|hours|days|weeks)$|^time::duration::Duration::(seconds|milliseconds|microseconds|nanoseconds|minutes|hours|days|weeks)$')
 def _dur_ctor(M, fr, n, a):
     unit = n.rsplit('::', 1)[1]
-    ns = {'nanoseconds': 1, 'microseconds': 10 ** 3, 'milliseconds': 10 ** 6, 'seconds': 10 ** 9, 'minutes': 60 * 10 ** 9, 'hours': 3600 * 10 ** 9, 'days': 86400 * 10 ** 9, 'weeks': 7 * 86400 * 10 ** 9}[unit]
-    return _dur_from(M, a[0], ns, unit)
-@reg(r'^<time::Duration as std::ops::Add>::add$')
+    k = {'nanoseconds': 1, 'microseconds': 10 ** 3, 'milliseconds': 10 ** 6, 'seconds': NS, 'minutes': 60 * NS, 'hours': 3600 * NS, 'days': 86400 * NS, 'weeks': 7 * 86400 * NS}[unit]
+    v = simp(a[0])
+    ns = v * k if not is_sym(v) else _sx128(v) * z3.BitVecVal(k, 128)
+    _dur_check(M, ns, 'overflow constructing `time::Duration`')
+    return _dur(ns)
+def _dur_ns(x): return x.f[0]
+def _to128(x): return x if is_sym(x) else z3.BitVecVal(x, 128)
+@reg(r'^<time::Duration as std::ops::Add>::add$|^<time::duration::Duration as std::ops::Add>::add$')
 def _dur_add(M, fr, n, a):
-    r = a[0].f[0] + a[1].f[0]
-    if not (I64_MIN <= (abs(r) // 10 ** 9) * (1 if r >= 0 else -1) <= I64_MAX): raise Panic('overflow when adding durations')
-    return _dur(r)
-@reg(r'^<time::Duration as std::ops::Mul<i32>>::mul$|^<time::Duration as std::ops::Mul<i64>>::mul$')
+    x, y = _dur_ns(a[0]), _dur_ns(a[1])
+    r = x + y if not (is_sym(x) or is_sym(y)) else _to128(x) + _to128(y)
+    _dur_check(M, r, 'overflow when adding durations')
+    return _dur(simp(r))
+@reg(r'^<time::Duration as std::ops::Mul<i(32|64|8|16)>>::mul$|^<time::duration::Duration as std::ops::Mul<i(32|64|8|16)>>::mul$')
 def _dur_mul(M, fr, n, a):
-    k = simp(a[1])
+    k = simp(a[1]); x = _dur_ns(a[0])
     if is_sym(k): raise Unsupported('symbolic duration factor')
-    r = a[0].f[0] * k
-    if not (I64_MIN <= (abs(r) // 10 ** 9) * (1 if r >= 0 else -1) <= I64_MAX): raise Panic('overflow when multiplying duration')
-    return _dur(r)
-@reg(r'^time::Duration::(whole_milliseconds|whole_nanoseconds|whole_microseconds|whole_seconds|is_negative|is_zero|is_positive|subsec_nanoseconds)$')
+    r = x * k if not is_sym(x) else x * z3.BitVecVal(k, 128)
+    _dur_check(M, r, 'overflow when multiplying duration')
+    return _dur(simp(r))
+@reg(r'^time::(duration::)?Duration::(whole_milliseconds|whole_nanoseconds|whole_microseconds|whole_seconds|is_negative|is_zero|is_positive|subsec_nanoseconds|as_seconds_f64|as_seconds_f32)$')
 def _dur_get(M, fr, n, a):
     d = D(M, a[0]) if isinstance(a[0], Ref) else a[0]; ns = d.f[0]; op = n.rsplit('::', 1)[1]
+    if op.startswith('as_seconds_f'): raise Unsupported('floating point view of a duration (floats are not encoded)')
+    if is_sym(ns):
+        q = lambda k: ns / z3.BitVecVal(k, 128)
+        r = {'whole_nanoseconds': ns, 'whole_microseconds': q(10 ** 3), 'whole_milliseconds': q(10 ** 6), 'is_negative': ns < 0, 'is_zero': ns == 0, 'is_positive': ns > 0}.get(op)
+        if op == 'whole_seconds': r = z3.Extract(63, 0, q(NS))
+        if op == 'subsec_nanoseconds': r = z3.Extract(31, 0, z3.SRem(ns, z3.BitVecVal(NS, 128)))
+        if r is None: raise Unsupported('duration accessor ' + op)
+        return r
     q = lambda x, k: (abs(x) // k) * (1 if x >= 0 else -1)
-    return {'whole_nanoseconds': ns, 'whole_microseconds': q(ns, 10 ** 3), 'whole_milliseconds': q(ns, 10 ** 6), 'whole_seconds': q(ns, 10 ** 9),
-            'is_negative': ns < 0, 'is_zero': ns == 0, 'is_positive': ns > 0, 'subsec_nanoseconds': ns - q(ns, 10 ** 9) * 10 ** 9}[op]
-@reg(r'^<time::Duration as std::cmp::PartialEq>::eq$')
-def _dur_eq(M, fr, n, a): return D(M, a[0]).f[0] == D(M, a[1]).f[0]
-@reg(r'^<time::Duration as std::clone::Clone>::clone$')
+    return {'whole_nanoseconds': ns, 'whole_microseconds': q(ns, 10 ** 3), 'whole_milliseconds': q(ns, 10 ** 6), 'whole_seconds': q(ns, NS),
+            'is_negative': ns < 0, 'is_zero': ns == 0, 'is_positive': ns > 0, 'subsec_nanoseconds': ns - q(ns, NS) * NS}[op]
+@reg(r'^<time::(duration::)?Duration as std::cmp::PartialEq>::eq$')
+def _dur_eq(M, fr, n, a): return v_eq(D(M, a[0]).f[0], D(M, a[1]).f[0])
+@reg(r'^<time::(duration::)?Duration as std::clone::Clone>::clone$')
 def _dur_clone(M, fr, n, a): return _dur(D(M, a[0]).f[0])
 
 @reg(r'^petgraph::visit::Dfs::<.*>::new(::<.*>)?$|^petgraph::visit::Dfs::new$')
@@ -1440,3 +1540,79 @@ def _hs_get(M, fr, n, a):
 
 @reg(r'^<std::path::PathBuf as std::ops::Deref>::deref$|^<std::path::PathBuf as std::convert::AsRef<.*>>::as_ref$|^std::path::Path::new$|^std::path::PathBuf::as_path$|^<std::path::Path as std::convert::AsRef<.*>>::as_ref$|^std::path::Path::to_path_buf$|^<std::path::PathBuf as std::convert::From<.*>>::from$')
 def _path_ident(M, fr, n, a): return a[0]
+
+# ------------------------------------------------------------------ time::{Date, Time, Month, PrimitiveDateTime} by contract (documented range checks)
+@reg(r'^<time::Month as std::convert::TryFrom<u8>>::try_from$|^time::Month::try_from$')
+def _month_try_from(M, fr, n, a):
+    v = simp(a[0])
+    inr = (1 <= v <= 12) if not is_sym(v) else z3.And(z3.UGE(v, 1), z3.ULE(v, 12))
+    if M.branch(inr): return ok(Agg('time::Month', [v]))
+    return err(Agg('ComponentRange', []))
+@reg(r'^<u8 as std::convert::From<time::Month>>::from$|^<time::Month as std::convert::Into<u8>>::into$')
+def _month_into(M, fr, n, a): return a[0].f[0]
+def _days_in_month(y, m):
+    leap = (y % 4 == 0 and y % 100 != 0) or y % 400 == 0
+    return [31, 29 if leap else 28, 31, 30, 31, 30, 31, 31, 30, 31, 30, 31][m - 1]
+@reg(r'^time::Date::from_calendar_date$|^time::date::Date::from_calendar_date$')
+def _date_from(M, fr, n, a):
+    y, mo, d = simp(a[0]), simp(a[1].f[0]), simp(a[2])
+    if not (is_sym(y) or is_sym(mo) or is_sym(d)):
+        if -9999 <= y <= 9999 and 1 <= d <= _days_in_month(y, mo): return ok(Agg('time::Date', [y, mo, d]))
+        return err(Agg('ComponentRange', []))
+    Y = tobv(y, 32); MO = tobv(mo, 8); Dd = tobv(d, 8)
+    leap = z3.Or(z3.And(z3.SRem(Y, 4) == 0, z3.SRem(Y, 100) != 0), z3.SRem(Y, 400) == 0)
+    dim = z3.BitVecVal(31, 8)
+    for mm, nd in ((4, 30), (6, 30), (9, 30), (11, 30)): dim = z3.If(MO == mm, z3.BitVecVal(nd, 8), dim)
+    dim = z3.If(MO == 2, z3.If(leap, z3.BitVecVal(29, 8), z3.BitVecVal(28, 8)), dim)
+    good = z3.And(Y >= -9999, Y <= 9999, z3.UGE(Dd, 1), z3.ULE(Dd, dim))
+    if M.branch(good): return ok(Agg('time::Date', [y, mo, d]))
+    return err(Agg('ComponentRange', []))
+@reg(r'^time::(date::)?Date::(year|month|day)$|^time::(primitive_date_time::)?PrimitiveDateTime::(year|month|day)$')
+def _date_get(M, fr, n, a):
+    d = D(M, a[0]) if isinstance(a[0], Ref) else a[0]
+    if d.name.endswith('PrimitiveDateTime'): d = d.f[0]
+    op = n.rsplit('::', 1)[1]
+    return {'year': d.f[0], 'month': Agg('time::Month', [d.f[1]]), 'day': d.f[2]}[op]
+@reg(r'^time::(time::)?Time::from_hms$')
+def _time_from_hms(M, fr, n, a):
+    h, mi, s_ = simp(a[0]), simp(a[1]), simp(a[2])
+    def lt(x, k): return (x < k) if not is_sym(x) else z3.ULT(x, k)
+    good = b_and(lt(h, 24), lt(mi, 60), lt(s_, 60))
+    if M.branch(good): return ok(Agg('time::Time', [h, mi, s_, 0]))
+    return err(Agg('ComponentRange', []))
+@reg(r'^time::(time::)?Time::as_hms_micro$|^time::(primitive_date_time::)?PrimitiveDateTime::as_hms_micro$')
+def _time_hmsm(M, fr, n, a):
+    t = D(M, a[0]) if isinstance(a[0], Ref) else a[0]
+    if t.name.endswith('PrimitiveDateTime'): t = t.f[1]
+    ns = t.f[3]
+    micro = ns // 1000 if not is_sym(ns) else z3.UDiv(ns, z3.BitVecVal(1000, ns.size()))
+    return Agg('()', [t.f[0], t.f[1], t.f[2], micro])
+@reg(r'^time::(primitive_date_time::)?PrimitiveDateTime::new$')
+def _pdt_new(M, fr, n, a): return Agg('time::PrimitiveDateTime', [a[0], a[1]])
+@reg(r'^<time::(date::)?Date as std::cmp::PartialEq>::eq$|^<time::(time::)?Time as std::cmp::PartialEq>::eq$|^<time::(primitive_date_time::)?PrimitiveDateTime as std::cmp::PartialEq>::eq$')
+def _time_eq(M, fr, n, a): return val_eq(M, fr, a[0], a[1])
+@reg(r'^<time::(date::)?Date as std::clone::Clone>::clone$|^<time::(time::)?Time as std::clone::Clone>::clone$|^<time::(primitive_date_time::)?PrimitiveDateTime as std::clone::Clone>::clone$')
+def _time_clone(M, fr, n, a): return deep_clone(D(M, a[0]))
+
+@reg(r'^std::collections::BTreeSet::(<.*>::)?iter$|^<&std::collections::BTreeSet<.*> as std::iter::IntoIterator>::into_iter$|^std::collections::BTreeMap::(<.*>::)?(iter|keys|values)$')
+def _bt_iter(M, fr, n, a):
+    rs = elem_refs(M, a[0])
+    def keyf(r):
+        v = M.deref(r)
+        if isinstance(v, Agg) and v.name == '()': v = M.deref(v.f[0])
+        c = v.conc() if isinstance(v, Str) else (v if isinstance(v, int) else None)
+        if c is None: raise Unsupported('ordered iteration over symbolic keys')
+        return c
+    rs = sorted(rs, key=keyf)
+    if n.endswith('keys'): rs = [Ref(r.cell, r.path + (('f', 0),)) for r in rs]
+    if n.endswith('values'): rs = [Ref(r.cell, r.path + (('f', 1),)) for r in rs]
+    return IterV(rs, 'ref')
+
+@reg(r'^std::str::<impl str>::replace$|^alloc::str::<impl str>::replace$')
+def _str_replace(M, fr, n, a):
+    s_ = as_str(M, a[0]); p = _pat_bytes(M, a[1]); to = as_str(M, a[2]).b
+    out = []; i = 0
+    while i < len(s_.b):
+        if p and i + len(p) <= len(s_.b) and M.branch(_match_at(s_, i, p)): out.extend(to); i += len(p)
+        else: out.append(s_.b[i]); i += 1
+    return Str(out)
